@@ -1,4 +1,6 @@
-import EupsModel.Lemmas.Cache
+import EupsModel.Lemmas.CacheInv
+import EupsModel.Lemmas.DbFile
+import EupsModel.Lemmas.OnePlace
 /-! C06 — the database reflects exactly the history of declare / undeclare / tag operations.
 Property theorems only; the model is `Model/Db.lean` (commands) under `Model/Cache.lean` (histories of
 processes: every command reads through the product cache it loads), helper lemmas in `Lemmas/`.
@@ -7,7 +9,7 @@ A *history* is any list of `WCmd`: commands of any user and flavor, each optiona
 k-th `Database` mutation, and cache-file deletions.  `runHistory (World.init nst dirs) h` is the state after
 it; `.db` is what a fresh reader of the files sees. -/
 namespace EupsModel.C06
-open EupsModel.Db EupsModel.Cache
+open EupsModel.Db EupsModel.Cache EupsModel.DbFile
 
 /-- the invariant of the database content holds after every history (crashes and cache deletions included;
 also for the pinned write-through, `fixed = false`) -/
@@ -54,10 +56,10 @@ theorem C06_frame (w : World) (u : User) (c : Cmd) (crash : Option Nat) :
         (x ∈ (step w (.run u c crash)).db.decls ↔ x ∈ w.db.decls)) ∧
     (∀ r : TagRec, ¬ (r.name = c.name ∧ r.flav = c.self ∧ (c.fpTag r.tag ∨ c.fpVer r.ver)) →
         (r ∈ (step w (.run u c crash)).db.tags ↔ r ∈ w.db.tags)) := by
-  obtain ⟨m, dirs, es, hs, he⟩ := step_db true w u c crash
+  obtain ⟨m, dirs, ex, es, hs, he⟩ := step_db true w u c crash
   have hok : ∀ e ∈ es, Within c.name c.self c.fpVer c.fpTag e := by
     intro e hes
-    exact run_trOK w.nst c ⟨w.db, m, dirs, []⟩ (by intro e h; simp at h) e (hs.subset hes)
+    exact run_trOK w.nst c ⟨w.db, m, dirs, [], ex⟩ (by intro e h; simp at h) e (hs.subset hes)
   unfold step
   rw [he]
   clear he hs
@@ -87,6 +89,247 @@ theorem C06_frame (w : World) (u : User) (c : Cmd) (crash : Option Nat) :
 /-- deleting a cache file changes nothing in the database -/
 theorem C06_frame_rmCache (w : World) (u : User) (s : Nat) (f : Flav) : (step w (.rmCache u s f)).db = w.db := rfl
 
+/-- **A refused command changes nothing.**  Whenever a command ends with `EupsException` — a conflicting
+redeclaration without force, a directory or table file that is not there, several versions to choose from —
+the database, the modification time of every record and the installation directories are exactly what they
+were, from every state, for every user, killed or not. -/
+theorem C06_refused_redeclare_is_noop (w : World) (u : User) (c : Cmd) (crash : Option Nat)
+    (h : (stepG true w (.run u c crash)).out = .refused) :
+    (step w (.run u c crash)).db = w.db ∧ (step w (.run u c crash)).dirs = w.dirs ∧
+      (step w (.run u c crash)).touch = w.touch := by
+  apply step_of_empty_run
+  intro m hm
+  rw [run_refused w.nst c _ (hm ▸ h)]
+
+/-- **A conflicting redeclaration without force is refused.**  After any history, `declare name version dir`
+(no tag, no force; `dir` exists with its table file in a stack of the path) of a (name, version, flavor) that
+the files of that stack declare with another directory ends with `EupsException` — and by the theorem above
+changes nothing. -/
+theorem C06_conflicting_redeclare_refused (nst : Nat) (dirs : List DirEnt) (h : List WCmd) (u : User)
+    (a : DeclareArgs) (d : Dir) (o : Decl)
+    (hdir : a.dir = some d) (htag : a.tag = none) (htn : a.tableNone = false) (hstack : a.stack = none)
+    (hforce : a.force = false) (hroot : d.root < nst)
+    (hex : (runHistory (World.init nst dirs) h).dirs.any (fun e => e.dir == d && e.tname == a.name) = true)
+    (hold : (runHistory (World.init nst dirs) h).db.findDecl d.root a.name a.ver a.self = some o)
+    (hdiff : o.dir ≠ d) :
+    (stepG true (runHistory (World.init nst dirs) h) (.run u (.declare a) none)).out = .refused := by
+  have hinv := history_inv nst dirs h
+  have hn : (runHistory (World.init nst dirs) h).nst = nst := history_nst _ h
+  generalize runHistory (World.init nst dirs) h = w at hinv hn hex hold
+  obtain ⟨m, hv, _, hout, _⟩ := step_run_sub hinv u (.declare a)
+  rw [hout]
+  simp only [run]
+  have hde : (⟨w.db, m, w.dirs, [], w.extras⟩ : Proc).dirExists d = true := by
+    simp only [Proc.dirExists, List.any_eq_true] at hex ⊢
+    obtain ⟨e, he, hk⟩ := hex
+    simp only [Bool.and_eq_true] at hk
+    exact ⟨e, he, hk.1⟩
+  have hres := resolveDeclare_explicit (nst := w.nst) (p := ⟨w.db, m, w.dirs, [], w.extras⟩) hdir htag htn hstack hde hex
+    (hn ▸ hroot)
+  have hag : AgreeOnN m w.db d.root a.self a.name := hv d.root (hn ▸ hroot) a.name
+  have hmem : (⟨w.db, m, w.dirs, [], w.extras⟩ : Proc).mem = m := rfl
+  have hfind : m.findDecl d.root a.name a.ver a.self = some o := by
+    rw [findDecl_agree hag hinv.dbinv.ku]; exact hold
+  have ho := findDecl_some hfind
+  have hnotfirst : declareTag w.nst a m = none := by
+    unfold declareTag
+    rw [htag]
+    dsimp only
+    have := findProducts_ne_nil (m := m) (nst := w.nst) (self := a.self) (n := a.name) ho.1
+      (by rw [ho.2.1, hn]; exact hroot) ho.2.2.1 ho.2.2.2.2
+    cases hl : findProducts m w.nst a.self a.name none (allStacks w.nst) with
+    | nil => exact absurd hl this
+    | cons _ _ => rfl
+  rw [declare_conflict_refused hres (by rw [hmem]; exact hfind) hforce (by rw [hmem]; exact hnotfirst)
+    (Or.inl hdiff)]
+
+/-- **Undeclaring a version removes it and every tag on it.**  After any history, when `undeclare` of a
+version (not the tag-only form, not a dry run, not killed) succeeds: the version it acted on — the one given,
+when one is given — was declared in the files of a stack, and afterwards neither that declaration nor any tag
+pointing at it is in the files of that stack. -/
+theorem C06_undeclare_removes_tags (nst : Nat) (dirs : List DirEnt) (h : List WCmd) (u : User) (a : UndeclareArgs)
+    (hna : a.noaction = false) (hform : a.tag = none ∨ a.versionAndTag = true)
+    (hok : (stepG true (runHistory (World.init nst dirs) h) (.run u (.undeclare a) none)).out = .ok) :
+    ∃ s v, (∀ v', a.ver = some v' → v = v') ∧
+      (runHistory (World.init nst dirs) h).db.hasDecl s a.name v a.self = true ∧
+      (step (runHistory (World.init nst dirs) h) (.run u (.undeclare a) none)).db.hasDecl s a.name v a.self = false ∧
+      ∀ r ∈ (step (runHistory (World.init nst dirs) h) (.run u (.undeclare a) none)).db.tags,
+        ¬ (r.stack = s ∧ r.name = a.name ∧ r.flav = a.self ∧ r.ver = v) := by
+  have hinv := history_inv nst dirs h
+  generalize runHistory (World.init nst dirs) h = w at hinv hok
+  obtain ⟨m, _, hout, hdb⟩ := step_run hinv u (.undeclare a)
+  rw [hout] at hok
+  unfold step
+  rw [hdb]
+  obtain ⟨s, v, h1, h2, h3, h4⟩ := undeclare_ok (nst := w.nst) (a := a) (p := ⟨w.db, m, w.dirs, [], w.extras⟩) hok hna hform
+  refine ⟨s, v, h1, h2, h3, ?_⟩
+  intro r hr hp
+  have := h4 r hr
+  rw [TagRec.pointsAt_iff.mpr hp] at this
+  cases this
+
+/-- **The first version ever declared of a product becomes current.**  After any history, when `declare`
+without a tag (not a dry run, not killed) of a product of which the files hold no declaration at all — any
+stack, any flavor — succeeds, the version is declared in a stack and `current` names it there. -/
+theorem C06_first_version_current (nst : Nat) (dirs : List DirEnt) (h : List WCmd) (u : User) (a : DeclareArgs)
+    (htag : a.tag = none) (hna : a.noaction = false)
+    (hfirst : ∀ d ∈ (runHistory (World.init nst dirs) h).db.decls, d.name ≠ a.name)
+    (hok : (stepG true (runHistory (World.init nst dirs) h) (.run u (.declare a) none)).out = .ok) :
+    ∃ s, (step (runHistory (World.init nst dirs) h) (.run u (.declare a) none)).db.tagVer s current a.name a.self
+          = some a.ver ∧
+        (step (runHistory (World.init nst dirs) h) (.run u (.declare a) none)).db.hasDecl s a.name a.ver a.self = true := by
+  have hinv := history_inv nst dirs h
+  generalize runHistory (World.init nst dirs) h = w at hinv hok hfirst
+  obtain ⟨m, _, hsub, hout, hdb⟩ := step_run_sub hinv u (.declare a)
+  rw [hout] at hok
+  unfold step
+  rw [hdb]
+  have hcur : declareTag w.nst a (⟨w.db, m, w.dirs, [], w.extras⟩ : Proc).mem = some current := by
+    show declareTag w.nst a m = some current
+    unfold declareTag
+    rw [htag]
+    dsimp only
+    cases hl : findProducts m w.nst a.self a.name none (allStacks w.nst) with
+    | nil => rfl
+    | cons x xs =>
+      exfalso
+      have := mem_findProducts (show x ∈ findProducts m w.nst a.self a.name none (allStacks w.nst) by rw [hl]; simp)
+      exact hfirst x (hsub x this.1) this.2
+  obtain ⟨r, _, h1, h2⟩ := declare_ok_tag (nst := w.nst) (a := a) (p := ⟨w.db, m, w.dirs, [], w.extras⟩) hok hna hcur
+  exact ⟨r.target, h1, h2⟩
+
+/-- **Assigning a tag makes it name the version, in the stack of the version** (`declare -t`).  After any
+history, when `declare` with tag `t` (not a dry run, not killed) succeeds, the version is declared in a stack
+and `t` names it there — whatever `t` named before in that stack (within a stack a tag names one version:
+`C06_tag_unique_in_stack`). -/
+theorem C06_last_assignment_wins (nst : Nat) (dirs : List DirEnt) (h : List WCmd) (u : User) (a : DeclareArgs)
+    (t : Tag) (htag : a.tag = some t) (hna : a.noaction = false)
+    (hok : (stepG true (runHistory (World.init nst dirs) h) (.run u (.declare a) none)).out = .ok) :
+    ∃ s, (step (runHistory (World.init nst dirs) h) (.run u (.declare a) none)).db.tagVer s t a.name a.self
+          = some a.ver ∧
+        (step (runHistory (World.init nst dirs) h) (.run u (.declare a) none)).db.hasDecl s a.name a.ver a.self = true := by
+  have hinv := history_inv nst dirs h
+  generalize runHistory (World.init nst dirs) h = w at hinv hok
+  obtain ⟨m, _, hout, hdb⟩ := step_run hinv u (.declare a)
+  rw [hout] at hok
+  unfold step
+  rw [hdb]
+  have ht : declareTag w.nst a (⟨w.db, m, w.dirs, [], w.extras⟩ : Proc).mem = some t := by
+    show declareTag w.nst a m = some t
+    unfold declareTag; rw [htag]
+  obtain ⟨r, _, h1, h2⟩ := declare_ok_tag (nst := w.nst) (a := a) (p := ⟨w.db, m, w.dirs, [], w.extras⟩) hok hna ht
+  exact ⟨r.target, h1, h2⟩
+
+/-- the same for a direct `Eups.assignTag` -/
+theorem C06_last_assignment_wins_assignTag (nst : Nat) (dirs : List DirEnt) (h : List WCmd) (u : User)
+    (f : Flav) (t : Tag) (n : Name) (v : Ver) (st : Option Nat)
+    (hok : (stepG true (runHistory (World.init nst dirs) h) (.run u (.assignTag f t n v st) none)).out = .ok) :
+    ∃ s, (step (runHistory (World.init nst dirs) h) (.run u (.assignTag f t n v st) none)).db.tagVer s t n f = some v ∧
+        (step (runHistory (World.init nst dirs) h) (.run u (.assignTag f t n v st) none)).db.hasDecl s n v f = true := by
+  have hinv := history_inv nst dirs h
+  generalize runHistory (World.init nst dirs) h = w at hinv hok
+  obtain ⟨m, _, hout, hdb⟩ := step_run hinv u (.assignTag f t n v st)
+  rw [hout] at hok
+  unfold step
+  rw [hdb]
+  obtain ⟨s, _, h1, h2⟩ := assignTag_ok (f := f) (t := t) (n := n) (v := v) (stacks := stacksOf w.nst st)
+    (p := ⟨w.db, m, w.dirs, [], w.extras⟩) hok
+  exact ⟨s, h1, h2⟩
+
+/-- **A tag is one designation on the whole path** (`C06_tag_unique_on_path_partial`; hypotheses: no direct
+`Eups.assignTag` in the history — D32 —, no `declare` killed half way, stack arguments on the path; undeclare,
+unassignTag, remove may be killed anywhere, caches deleted anywhere).  After such a history every (tag, product,
+flavor) is assigned in at most one stack: `declare -t` really *moves* the tag, whichever stacks held it. -/
+theorem C06_tag_unique_on_path_partial (nst : Nat) (hn : 0 < nst) (dirs : List DirEnt) (h : List WCmd)
+    (hp : ∀ c ∈ h, Plain nst c) :
+    ∀ r ∈ (runHistory (World.init nst dirs) h).db.tags, ∀ q ∈ (runHistory (World.init nst dirs) h).db.tags,
+      r.tag = q.tag → r.name = q.name → r.flav = q.flav → r = q := by
+  intro r hr q hq h1 h2 h3
+  have hs := (history_onePlace nst hn dirs h hp).1 r hr q hq h1 h2 h3
+  exact (dbInv_history true nst dirs h).ku.tag r hr q hq (TagRec.sameKey_iff.mpr ⟨hs, h1, h2, h3⟩)
+
+/-- **Resolving the tag yields the version it was last assigned to** (path-wide; same hypotheses).  After a plain
+history, when `declare` with tag `t` (not a dry run, not killed, stack argument on the path) succeeds, whatever
+stack `findTaggedProduct` answers from over the whole path, it answers the version just declared. -/
+theorem C06_resolves_to_last_assignment_partial (nst : Nat) (hn : 0 < nst) (dirs : List DirEnt) (h : List WCmd)
+    (hp : ∀ c ∈ h, Plain nst c) (u : User) (a : DeclareArgs) (t : Tag) (htag : a.tag = some t)
+    (hna : a.noaction = false) (hstack : ∀ s, a.stack = some s → s < nst)
+    (hok : (stepG true (runHistory (World.init nst dirs) h) (.run u (.declare a) none)).out = .ok)
+    (d : Decl)
+    (hd : (step (runHistory (World.init nst dirs) h) (.run u (.declare a) none)).db.findTagged (allStacks nst)
+            a.name t a.self = some d) :
+    d.ver = a.ver := by
+  obtain ⟨s, hs, _⟩ := C06_last_assignment_wins nst dirs h u a t htag hna hok
+  have hplain : ∀ c ∈ h ++ [.run u (.declare a) none], Plain nst c := by
+    intro c hc
+    rcases List.mem_append.mp hc with hc | hc
+    · exact hp c hc
+    · simp only [List.mem_singleton] at hc; subst hc; exact ⟨rfl, hstack⟩
+  have huniq := C06_tag_unique_on_path_partial nst hn dirs (h ++ [.run u (.declare a) none]) hplain
+  have hrun : runHistory (World.init nst dirs) (h ++ [.run u (.declare a) none])
+      = step (runHistory (World.init nst dirs) h) (.run u (.declare a) none) := by
+    simp [runHistory, List.foldl_append]
+  rw [hrun] at huniq
+  obtain ⟨r1, hr1, k1⟩ := Spec.tagVer_some hs
+  obtain ⟨r2, hr2, k2⟩ := Spec.tagVer_some (findTagged_tagVer hd)
+  have := huniq r1 hr1 r2 hr2 (k1.2.1.trans k2.2.1.symm) (k1.2.2.1.trans k2.2.2.1.symm)
+    (k1.2.2.2.1.trans k2.2.2.2.1.symm)
+  rw [← k2.2.2.2.2, ← this, k1.2.2.2.2]
+
+/-- **D32 (open).**  Path-wide, "resolving the tag yields the version it was last assigned to" is false for a
+direct `Eups.assignTag`: `declare p 1 -t stable` in stack 0, `declare p 2` in stack 1, `assignTag stable p 2`:
+the tag is now in both stacks and the first stack on the path still answers `1`. -/
+theorem C06_assign_tag_other_stack_witness :
+    let p : Name := [112]; let L : Flav := [76]; let stable : Tag := [115]
+    let dirs : List DirEnt := [⟨⟨0, relDir L p [49]⟩, p⟩, ⟨⟨1, relDir L p [50]⟩, p⟩]
+    let w := runHistory (World.init 2 dirs)
+      [.run 0 (.declare ⟨L, p, [49], some ⟨0, relDir L p [49]⟩, none, false, some stable, false, false, []⟩) none,
+       .run 0 (.declare ⟨L, p, [50], some ⟨1, relDir L p [50]⟩, none, false, none, false, false, []⟩) none,
+       .run 0 (.assignTag L stable p [50] none) none]
+    (w.db.findTagged (allStacks 2) p stable L).map (·.ver) = some [49] ∧
+    w.db.tagVer 0 stable p L = some [49] ∧ w.db.tagVer 1 stable p L = some [50] := by decide
+
+/-- **Refinement: the record files read back as the abstract database**, after every history.
+`runHistoryF` performs the history on version files (one block per flavor, the directory stored relative to
+the stack) and chain files (flavor ↦ version), creating a file with its first block and removing it with its
+last, by what `Database.declare / undeclare / assignTag / unassignTag` do to them (`DbFile.applyF`).  At every
+point: the files are well formed (one file per key, one block per flavor, no empty file), the world reached is
+the one of `runHistory`, and `abs` of the files holds exactly the declarations and tags of its database. -/
+theorem C06_refines (nst : Nat) (dirs : List DirEnt) (h : List WCmd) :
+    (runHistoryF nst dirs h).2 = runHistory (World.init nst dirs) h ∧
+    WFF (runHistoryF nst dirs h).1 ∧
+    SameContent (DbFile.abs (runHistoryF nst dirs h).1) (runHistory (World.init nst dirs) h).db := by
+  unfold runHistoryF runHistory
+  suffices ∀ (F : FileDb) (w : World), WFF F → SameContent (DbFile.abs F) w.db → CacheInv w →
+      (h.foldl stepF (F, w)).2 = h.foldl step w ∧ WFF (h.foldl stepF (F, w)).1 ∧
+      SameContent (DbFile.abs (h.foldl stepF (F, w)).1) (h.foldl step w).db from
+    this _ _ wff_empty (SameContent.refl _) (cacheInv_init nst dirs)
+  induction h with
+  | nil => intro F w hF hc _; exact ⟨rfl, hF, hc⟩
+  | cons c cs ih =>
+    intro F w hF hc hinv
+    simp only [List.foldl_cons]
+    have hstep : stepF (F, w) c = ((stepG true w c).trace.foldl (fun F e => applyF e F) F, step w c) := rfl
+    rw [hstep]
+    obtain ⟨h1, h2⟩ := foldl_applyF_sim (stepG true w c).trace hF hc hinv.dbinv
+    refine ih _ _ h1 ?_ (step_inv hinv c)
+    unfold step
+    rw [stepG_db_trace w hinv.dbinv c]
+    exact h2
+
+/-- **Reads on the files equal reads on the abstract database**, after every history: `Database.findProduct`
+(is (name, version, flavor) declared in the stack, with which directory and table), the tagged version of a
+chain file, and the listings (`findProducts`, `getTagAssignments`: membership in `abs`). -/
+theorem C06_refines_reads (nst : Nat) (dirs : List DirEnt) (h : List WCmd) (s : Nat) (n : Name) (v : Ver) (f : Flav)
+    (t : Tag) :
+    DbFile.findProduct (runHistoryF nst dirs h).1 s n v f = (runHistory (World.init nst dirs) h).db.findDecl s n v f ∧
+    (DbFile.abs (runHistoryF nst dirs h).1).tagVer s t n f = (runHistory (World.init nst dirs) h).db.tagVer s t n f ∧
+    (∀ d, d ∈ (DbFile.abs (runHistoryF nst dirs h).1).decls ↔ d ∈ (runHistory (World.init nst dirs) h).db.decls) ∧
+    (∀ r, r ∈ (DbFile.abs (runHistoryF nst dirs h).1).tags ↔ r ∈ (runHistory (World.init nst dirs) h).db.tags) := by
+  obtain ⟨_, hwf, hsame⟩ := C06_refines nst dirs h
+  have hku := (history_inv nst dirs h).dbinv.ku
+  exact ⟨(findProduct_eq hwf s n v f).trans (hsame.findDecl hku s n v f), hsame.tagVer hku s t n f, hsame.1, hsame.2⟩
+
 /-! ### the hypotheses are satisfiable / the statements are not vacuous -/
 
 /-- `declare p 1` in stack 0 then `declare p 2 -t beta`: two declarations and two tags come out, so the
@@ -95,8 +338,53 @@ example :
     let p : Name := [112]; let L : Flav := [76]; let beta : Tag := [98]
     let dirs : List DirEnt := [⟨⟨0, relDir L p [49]⟩, p⟩, ⟨⟨0, relDir L p [50]⟩, p⟩]
     let w := runHistory (World.init 2 dirs)
-      [.run 0 (.declare ⟨L, p, [49], some ⟨0, relDir L p [49]⟩, none, false, none, false, false⟩) none,
-       .run 0 (.declare ⟨L, p, [50], some ⟨0, relDir L p [50]⟩, none, false, some beta, false, false⟩) none]
+      [.run 0 (.declare ⟨L, p, [49], some ⟨0, relDir L p [49]⟩, none, false, none, false, false, []⟩) none,
+       .run 0 (.declare ⟨L, p, [50], some ⟨0, relDir L p [50]⟩, none, false, some beta, false, false, []⟩) none]
     (w.db.decls.length, w.db.tags.length) = (2, 2) := by decide
+
+/-- the hypotheses of `C06_conflicting_redeclare_refused`, `C06_refused_redeclare_is_noop`,
+`C06_undeclare_removes_tags`, `C06_first_version_current` and `C06_last_assignment_wins` are met by concrete
+commands: after `declare p 1 <dir1>` (first version: ok), `declare p 1 <dir2>` is refused, `declare p 2 <dir2>
+-t beta` and `undeclare p 1` succeed -/
+example :
+    let p : Name := [112]; let L : Flav := [76]; let beta : Tag := [98]
+    let d1 : Dir := ⟨0, relDir L p [49]⟩; let d2 : Dir := ⟨0, relDir L p [50]⟩
+    let dirs : List DirEnt := [⟨d1, p⟩, ⟨d2, p⟩]
+    let first : WCmd := .run 0 (.declare ⟨L, p, [49], some d1, none, false, none, false, false, []⟩) none
+    let w := runHistory (World.init 2 dirs) [first]
+    (stepG true (World.init 2 dirs) first).out = .ok ∧
+    (stepG true w (.run 0 (.declare ⟨L, p, [49], some d2, none, false, none, false, false, []⟩) none)).out = .refused ∧
+    w.db.findDecl 0 p [49] L = some ⟨0, p, [49], L, d1, .default⟩ ∧
+    (stepG true w (.run 0 (.declare ⟨L, p, [50], some d2, none, false, some beta, false, false, []⟩) none)).out = .ok ∧
+    (stepG true w (.run 0 (.undeclare ⟨L, p, some [49], none, none, false, false, false, none⟩) none)).out = .ok := by decide
+
+/-- two flavors share one version file and one chain file; undeclaring one flavor leaves the other's blocks -/
+example :
+    let p : Name := [112]; let L : Flav := [76]
+    let dirs : List DirEnt := [⟨⟨0, relDir L p [49]⟩, p⟩, ⟨⟨0, relDir generic p [49]⟩, p⟩]
+    let h : List WCmd :=
+      [.run 0 (.declare ⟨L, p, [49], some ⟨0, relDir L p [49]⟩, none, false, none, false, false, []⟩) none,
+       .run 0 (.declare ⟨generic, p, [49], some ⟨0, relDir generic p [49]⟩, none, false, none, false, false, []⟩) none]
+    let F := (runHistoryF 1 dirs h).1
+    let F' := (runHistoryF 1 dirs (h ++ [.run 0 (.undeclare ⟨L, p, some [49], none, none, false, false, false, none⟩) none])).1
+    (F.vfiles.map (fun x => x.recs.map (·.flav)), F.cfiles.map (fun x => x.recs.map (·.flav)),
+     F'.vfiles.map (fun x => x.recs.map (·.flav)), F'.cfiles.map (fun x => x.recs.map (·.flav)))
+      = ([[L, generic]], [[L, generic]], [[generic]], [[generic]]) := by decide
+
+/-- a plain history in which a tag really moves between stacks: `declare p 1 <dir in stack 0> -t beta`, then
+`declare p 2 <dir in stack 1> -t beta`: afterwards `beta` is in stack 1 only.  Killed right after its
+`Database.declare` (which writes the tag of the new version), the second command leaves `beta` in both stacks:
+the hypothesis "no `declare` killed half way" of `C06_tag_unique_on_path_partial` is needed. -/
+theorem C06_tag_unique_on_path_crash_witness :
+    let p : Name := [112]; let L : Flav := [76]; let beta : Tag := [98]
+    let dirs : List DirEnt := [⟨⟨0, relDir L p [49]⟩, p⟩, ⟨⟨1, relDir L p [50]⟩, p⟩]
+    let c1 : Cmd := .declare ⟨L, p, [49], some ⟨0, relDir L p [49]⟩, none, false, some beta, false, false, []⟩
+    let c2 : Cmd := .declare ⟨L, p, [50], some ⟨1, relDir L p [50]⟩, none, false, some beta, false, false, []⟩
+    let whole := runHistory (World.init 2 dirs) [.run 0 c1 none, .run 0 c2 none]
+    let killed := runHistory (World.init 2 dirs) [.run 0 c1 none, .run 0 c2 (some 1)]
+    (whole.db.tags.filter (fun r => r.tag == beta)).map (·.stack) = [1] ∧
+    ((killed.db.tags.filter (fun r => r.tag == beta)).map (·.stack)).length = 2 ∧
+    Plain 2 (.run 0 c1 none) ∧ Plain 2 (.run 0 c2 none) := by
+  refine ⟨by decide, by decide, ⟨rfl, ?_⟩, ⟨rfl, ?_⟩⟩ <;> intro s hs <;> cases hs
 
 end EupsModel.C06
